@@ -1,2 +1,108 @@
--- stub: replaced by the C16 driver
-def main : IO Unit := pure ()
+/-
+  Driver.C16 — runs the ZipSender CodeModel on whole histories (one per line).
+
+    R <variant> <w>,<q>,<b>,<z>                → settings chosen by GetInstance for that option struct
+    C <q|-> <w|-> <b|-> <z|->                  → settings after ApplyConfig (`-` = key absent)
+    H <variant> <w>,<q>,<b>,<z> <op>;<op>;…    → <pack>;<pack>;… | <final state>
+
+  variant  fixed | found
+  op       a:<rec>  Add            s  one loop iteration      x  stop
+           p:<rec>  Append         d:<rec>|<rec>|…  SendDirect (d:- for none)
+           c:<q|->,<w|->,<b|->,<z|->  ApplyConfig
+  rec      <id>:<time>:<hex of the encoded record>   or   <id>:<time>:#<n>  (n zero bytes stand for a long encoding)
+  pack     <S|D>:<count>:<zipped 0|1>:<o|s|d<k>>:<payload length>:<hash>:<ids>
+           (gzip is the identity here: length and hash are those of the uncompressed payload)
+  state    buf=<ids> count=<n> len=<n> first=<t> queue=<ids> set=<w>,<q>,<b>,<z> stopped=<0|1>
+-/
+import Golib.ZipSender.Model
+import Driver.Common
+
+open ZipSender Drv
+
+structure DRec where
+  id : Nat
+  time : Int
+  bytes : Bytes
+
+def dcodec : Codec DRec := ⟨(·.bytes), (·.time)⟩
+def dzip : Zip := ⟨id⟩
+
+def parseVariant : String → Option Variant
+  | "fixed" => some Variant.fixed
+  | "found" => some Variant.asFound
+  | _ => none
+
+def parseSettings (s : String) : Option Settings :=
+  match s.splitOn "," with
+  | [w, q, b, z] => do
+    let w ← parseInt w; let q ← parseInt q; let b ← parseInt b; let z ← parseInt z
+    pure ⟨w, q, b, z⟩
+  | _ => none
+
+def parseOptInt (s : String) : Option (Option Int) :=
+  if s == "-" then some none else (parseInt s).map some
+
+def parseConf (q w b z : String) : Option Conf := do
+  let q ← parseOptInt q; let w ← parseOptInt w; let b ← parseOptInt b; let z ← parseOptInt z
+  pure ⟨q, w, b, z⟩
+
+def parseRec (s : String) : Option DRec :=
+  match s.splitOn ":" with
+  | [i, t, h] => do
+    let i ← parseNat i; let t ← parseInt t
+    let h ← (if h.startsWith "#" then (parseNat (h.drop 1).toString).map (List.replicate · 0) else ofHex h)
+    pure ⟨i, t, h⟩
+  | _ => none
+
+def parseOp (s : String) : Option (In DRec) :=
+  if s == "s" then some .step
+  else if s == "x" then some .stop
+  else if s.startsWith "a:" then (parseRec (s.drop 2).toString).map .add
+  else if s.startsWith "p:" then (parseRec (s.drop 2).toString).map .append
+  else if s.startsWith "d:" then
+    let body := (s.drop 2).toString
+    if body == "-" then some (.sendDirect []) else ((body.splitOn "|").mapM parseRec).map .sendDirect
+  else if s.startsWith "c:" then
+    match ((s.drop 2).toString).splitOn "," with
+    | [q, w, b, z] => (parseConf q w b z).map .applyConfig
+    | _ => none
+  else none
+
+def showSettings (s : Settings) : String := s!"{s.maxWait},{s.queueCap},{s.maxBuf},{s.zipMin}"
+
+def hashBytes (bs : Bytes) : Nat := bs.foldl (fun h b => (h * 31 + b + 1) % 4294967296) 7
+
+def showRef : Ref → String
+  | .owned => "o"
+  | .sharedBuf => "s"
+  | .directBuf k => s!"d{k}"
+
+def ids (rs : List DRec) : String := listOf (fun r => toString r.id) rs
+
+def showPack (p : Pack DRec) : String :=
+  let src := match p.src with | .shared => "S" | .direct => "D"
+  s!"{src}:{p.count}:{if p.zipped then 1 else 0}:{showRef p.ref}:{p.payload.length}:{hashBytes p.payload}:{ids p.recs}"
+
+def showState (s : State DRec) : String :=
+  s!"buf={ids s.buf.reverse} count={s.count} len={s.bufLen} first={s.firstTime} queue={ids s.queue} set={showSettings s.settings} stopped={if s.stopped then 1 else 0}"
+
+def answer (line : String) : String :=
+  match line.splitOn " " with
+  | ["R", v, o] =>
+    match parseVariant v, parseSettings o with
+    | some v, some o => showSettings (resolve v o)
+    | _, _ => "bad-op"
+  | ["C", q, w, b, z] =>
+    match parseConf q w b z with
+    | some c => showSettings c.resolve
+    | none => "bad-op"
+  | ["H", v, st, ops] =>
+    match parseVariant v, parseSettings st, (if ops == "-" then some [] else (ops.splitOn ";").mapM parseOp) with
+    | some v, some st, some ops =>
+      let (s, out) := run v dzip dcodec (init st) ops
+      let ps := if out.isEmpty then "-" else ";".intercalate (out.map (fun x => showPack x.2))
+      s!"{ps} | {showState s}"
+    | _, _, _ => "bad-op"
+  | _ => "bad-op"
+
+def main : IO Unit := statelessLoop answer
